@@ -161,3 +161,47 @@ def finite_state_field(f, method_path):
         return None
     name, enum = fields[0]
     return name, [('ctor', hirq.short_def(v['path']), ()) for v in enum['variants']]
+
+def leaves_result_in_fields(f, callee_path, **kw):
+    """Interpreter summary (pass in `summaries=[..]`) for calls of the workspace method `callee_path`: what the callee does to the
+    fields of its receiver, as far as the caller can use it.  By default a call the interpreter does not inline leaves the heap as
+    it is - right for a callee that writes nothing the caller reads later, wrong for `fn next(&mut self) -> T { ..; self.mark = x; x }`
+    followed by a read of `self.mark` in the caller.  The callee's paths are enumerated once (keywords `kw` as for `paths`); for
+    every place `self.F..` (field links only) that some returning path stores to:
+      * every returning path ends with the value it returns in that place  ->  after the call the place holds the call's result
+        (the same term the call itself is answered with, so `let id = self.next(); ... self.mark` and `id` are one value);
+      * otherwise  ->  the place holds a value of its own, ('left-by', callee, place, site), equal to nothing else.
+    Justification: a returning call has taken exactly one returning path of the callee, and a place nobody stores to is unchanged;
+    the receiver is `&mut`, so nothing else writes it while the call runs.  The call is recorded ('call' event) as without this
+    summary; each write as the 'store' event the assignment `place = value` in the caller would leave."""
+    B = hirq.Body(f, f.hir[callee_path])
+    state = {}
+    def effects():
+        if 'fx' not in state:
+            outs, _I = paths(f, B, **kw)
+            rets = [o for o in outs if o.kind in ('val', 'ret')]
+            SELF = ('param', 'self')
+            def rooted(p):
+                while isinstance(p, tuple) and p and p[0] == 'field':
+                    p = p[1]
+                return p == SELF
+            places = []
+            for o in rets:
+                for _i, place, _v, _n in stores(o, lambda p: p[0] == 'field' and rooted(p)):
+                    if place not in places:
+                        places.append(place)
+            state['fx'] = [(p, bool(rets) and all(o.st.heap.get(p) == o.val for o in rets)) for p in places]
+        return state['fx']
+    def subst(p, recv):
+        return recv if p == ('param', 'self') else ('field', subst(p[1], recv), p[2])
+    def summary(interp, cal, args, node, st):
+        if cal != callee_path or not args or node.get('ty') == '!':
+            return None
+        t = ('call', cal, tuple(args), node.get('id'))
+        s = st.event(('call', cal, tuple(args), node))
+        for p, is_result in effects():
+            place = subst(p, args[0])
+            v = t if is_result else ('left-by', cal, place, node.get('id'))
+            s = s.store(place, v).event(('store', place, v, node))
+        return [absx.Out('val', t, s)]
+    return summary
